@@ -330,20 +330,21 @@ func macOfKey(p *parsed, raw []byte, key []byte) (mac []byte) {
 	if !p.ok || !(p.isUDP || p.isSCMP) || p.authOpt == nil || len(p.authOpt.OptData) != scion.PacketAuthOptDataLen {
 		return nil
 	}
-	pldType, pldLen := slayers.L4UDP, int(p.udp.Length)
+	// the L4 part AS PARSED: the UDP header and the payload the length field delimits (what the
+	// receiver evaluates), not the tail of the datagram
+	pldType := slayers.L4UDP
+	pld := append(append([]byte(nil), p.udp.Contents...), p.udp.Payload...)
 	if p.isSCMP { // nobody verifies these; the MAC an end would compute over the SCMP message
-		pldType, pldLen = slayers.L4SCMP, 4+len(p.scmp.Payload)
+		pldType = slayers.L4SCMP
+		pld = append(append([]byte(nil), p.scmp.Contents...), p.scmp.Payload...)
 	}
-	if len(raw) < pldLen {
-		return nil
-	}
+
 	if key == nil {
 		key = keyFn(p)
 	}
 	if len(key) == 0 { // nil: this datagram has no key; empty: the caller says there is none
 		return nil
 	}
-	buf := append([]byte(nil), raw...)
 	out := make([]byte, 16)
 	aux := make([]byte, spao.MACBufferSize)
 	_, err := spao.ComputeAuthCMAC(spao.MACInput{
@@ -351,7 +352,7 @@ func macOfKey(p *parsed, raw []byte, key []byte) (mac []byte) {
 		Header:     slayers.PacketAuthOption{EndToEndOption: p.authOpt},
 		ScionLayer: &p.scn,
 		PldType:    pldType,
-		Pld:        buf[len(buf)-pldLen:],
+		Pld:        pld,
 	}, aux, out)
 	if err != nil {
 		return nil
@@ -815,4 +816,24 @@ func probeMain() {
 		return
 	}
 	d.runSrvKind("srv.probe", v[1], parseSteps(v[2]))
+}
+
+// spliceTail builds the datagram  SCION header | extensions | UDP'(length 8+len(forged)) | forged |
+// UDP header of raw | payload of raw  from a genuine datagram raw: the tail of the result is the
+// genuine L4 part, the L4 part a receiver parses is UDP' | forged.  The SCION payload length is
+// adjusted (it is not covered by the authenticator's MAC); everything the MAC covers is as in raw.
+func spliceTail(raw, forged []byte) []byte {
+	p := parse(raw)
+	if !p.ok || !p.isUDP || len(raw) < 8+len(p.udp.Payload) || int(p.udp.Length) != 8+len(p.udp.Payload) {
+		return nil
+	}
+	l4 := len(raw) - 8 - len(p.udp.Payload)
+	b := append([]byte(nil), raw[:l4]...)
+	hdr := append([]byte(nil), raw[l4:l4+8]...)
+	binary.BigEndian.PutUint16(hdr[4:], uint16(8+len(forged)))
+	b = append(b, hdr...)
+	b = append(b, forged...)
+	b = append(b, raw[l4:]...)
+	binary.BigEndian.PutUint16(b[6:], binary.BigEndian.Uint16(raw[6:])+uint16(8+len(forged)))
+	return b
 }
